@@ -4,6 +4,7 @@ import (
 	"fmt"
 	"os"
 	"runtime/debug"
+	"strconv"
 	"syscall"
 	"time"
 
@@ -14,8 +15,10 @@ import (
 // childBench ("--c07-bench") prints the cost of each setting on one small file
 // inside one process with the collector off, like an executor child. Diagnostics only.
 func childBench() {
-	if os.Getenv("C07_BENCH_GC") == "" {
+	if v := os.Getenv("C07_BENCH_GC"); v == "" {
 		debug.SetGCPercent(-1)
+	} else if n, err := strconv.Atoi(v); err == nil && n > 1 {
+		debug.SetGCPercent(n)
 	}
 	dir, clean := vlib.Scratch("c07b")
 	defer clean()
@@ -31,7 +34,7 @@ func childBench() {
 		t0 := time.Now()
 		text = genLarge(c)
 		fmt.Println("gen", time.Since(t0), len(text))
-		for _, s := range largeSettings(false) {
+		for _, s := range largeSettings(c, false) {
 			t0, c0 := time.Now(), cpu()
 			ref := reference(text, s.B)
 			_ = ref
@@ -43,9 +46,9 @@ func childBench() {
 	}
 	sets := allSettings()
 	if os.Getenv("C07_BENCH_FEW") != "" {
-		sets = []setting{{B: dnsfix.RDBv1, W: 1, BSize: 0, BPar: 1}, {B: dnsfix.RDBv1, W: 1, Bld: true}}
+		sets = []setting{{B: dnsfix.RDBv1, W: 1, BSize: 0, BPar: 1}, {B: dnsfix.RDBv1, W: 2, BSize: 1, BPar: 2}, {B: dnsfix.RDBv2, W: 3, BSize: 2, BPar: 1}, {B: dnsfix.RDBv2, W: 1, BSize: 3, BPar: 2}}
 	}
-	for rep := 0; rep < 2; rep++ {
+	for rep := 0; rep < 6; rep++ {
 		for _, s := range sets {
 			ref := reference(text, s.B)
 			t0, c0 := time.Now(), cpu()
